@@ -41,6 +41,7 @@ pub use crate::compiler::preprocessor_cache::PreprocessorCacheEntry;
 #[cfg(sccache_verif)]
 pub mod verif {
     pub use super::args::*;
+    pub use super::c::verif_process_preprocessed_file;
     pub use super::c::{hash_key, ArtifactDescriptor, CCompilerImpl, ParsedArguments, CACHE_VERSION};
     pub mod gcc {
         pub use super::super::gcc::{
